@@ -196,7 +196,7 @@ def check_C18(tier, seed, replay=None):
                 samples.append(open(p).read())
         wall = time.time() - t0
         faults = {
-            "file torn (EOF at offset, every offset of the file)": probes.get("torn_in_signature", 0) + probes.get("torn_in_IHDR", 0) + probes.get("torn_in_tEXt", 0) + probes.get("torn_in_IDAT", 0) + probes.get("torn_in_IEND", 0) + probes.get("jcf_torn", 0),
+            "file torn (EOF at offset, every offset of the file)": probes.get("torn_in_signature", 0) + probes.get("torn_in_IHDR", 0) + probes.get("torn_in_tEXt", 0) + probes.get("torn_in_IDAT", 0) + probes.get("torn_in_IEND", 0) + probes.get("torn_in_tail", 0) + probes.get("jcf_torn", 0),
             "bit flipped at rest": sum(probes.get(k, 0) for k in ("flip_in_length", "flip_in_type", "flip_in_data", "flip_in_crc", "flip_in_signature")),
             "read fails with EIO": probes.get("eio_on_png_read", 0) + probes.get("jcf_eio", 0),
             "short reads (1..7 bytes per read call)": probes.get("short_reads_roundtrip", 0),
@@ -210,11 +210,11 @@ def check_C18(tier, seed, replay=None):
             evaluations=children,
             distinct_nontrivial=sum(v for k, v in fates.items() if k != "exit0") + verdicts.get("equal", 0) + verdicts.get("null", 0),
             rule="one evaluation = one forked execution of a program (write and/or read of one simulated file under one fault plan). Truncation offsets are "
-                 "enumerated completely per file, single-bit flips completely for files up to 150/750 bytes (quick/thorough) and sampled above, the rest is seeded. "
+                 "enumerated completely per file up to 3000 bytes (larger, multi-IDAT files: every chunk boundary -1/0/+1 plus a seeded sample), single-bit flips completely for files up to 150/750 bytes (quick/thorough) and sampled above, the rest is seeded. "
                  "Non-trivial = the child reached a judged outcome (terminated by libpng/m4ri_die, or returned NULL, or returned a matrix that was compared); "
                  "distinct by construction within a file (different offset/bit), files differ by seed",
             exhaustive=False,
-            exhaustive_scope="truncation at every byte offset of each generated PNG file is complete; everything else is sampled",
+            exhaustive_scope="truncation at every byte offset of each generated PNG file of at most 3000 bytes is complete; everything else is sampled",
             samples=samples[:4], cases=len(hashes), per_kind=per_kind, child_fates=fates, child_verdicts=verdicts,
             fault_kinds_fired=faults, reach_probes=probes, probes_stuck_at_zero=stuck,
             runs_per_hour=int(children / max(wall, 1e-3) * 3600), seeds_per_hour=int(len(hashes) / max(wall, 1e-3) * 3600),
@@ -475,7 +475,7 @@ def check_hist(prop, tier, seed, replay=None):
                 if v.get("class") in ("temporary_not_released", "header_slot_not_released", "invalid_or_double_free", "dirty_padding"):
                     # these are found after ANY call of the run (history prefix included): the probe operation is not the culprit
                     scen = "-"
-                if v.get("class") == "temporary_not_released":
+                if v.get("class") in ("temporary_not_released", "release_of_temporaries_depends_on_history_or_heap"):
                     who = leaker(sym, v.get("bt"))
                 return "hist|%s|%s|%s" % (scen, v.get("class"), who)
             process_violations(rep, exe, mine, None, outdir, seed, sig,
